@@ -108,11 +108,12 @@ def r1_acceptance(ctx, f, rep):
                     is_len = lambda v: v[0] == 'call' and v[1] in calls and calls[v[1]]['res'].endswith('::len')
                     nrm = q.cmp_norm(c)
                     if nrm and nrm[0] == 'ge' and is_len(nrm[2]):
-                        if q.loads_self_field(nrm[1], 'config', 'max_packet_size'):
-                            fits_pkt = True
-                        pr = q.peel(nrm[1])
-                        if pr[0] == 'const' and pr[2] is not None and pr[2] <= 65535:
-                            fits_u16 = True
+                        for bound in q.min_operands(p, nrm[1]):     # `len <= a`, or `len <= min(a, b)` for both at once
+                            if q.loads_self_field(bound, 'config', 'max_packet_size'):
+                                fits_pkt = True
+                            pr = q.peel(bound)
+                            if pr[0] == 'const' and pr[2] is not None and pr[2] <= 65535:
+                                fits_u16 = True
                 rep.check(nonempty and fits_pkt and fits_u16 and e['args'][1] == ('param', 0, 2) and
                           q.is_variant(e['args'][2], 'Option', 'None') or
                           (nonempty and fits_pkt and fits_u16 and e['args'][2][0] == 'agg' and e['args'][2][3] == 'None'),
@@ -154,12 +155,13 @@ def r2_receive_loop(ctx, f, rep):
                 nz = big = False
                 gi = [k for k, x in enumerate(evs) if x['kind'] == 'call' and x.get('id') == lenv[1]][0] if good else 0
                 for c in [x for x in evs[gi:i] if x['kind'] == 'cond']:
-                    ex = c['expr']
-                    if ex[0] == 'binop' and ex[1] == 'Eq' and ex[2] == end and ex[3][0] == 'const' and ex[3][2] == 0:
-                        nz = q.cond_truth(c) is False
-                    if ex[0] == 'binop' and ex[1] == 'Lt' and ex[3] == end and ex[2][0] == 'call' and \
-                            calls[ex[2][1]]['res'].endswith('::len'):
-                        big = q.cond_truth(c) is False
+                    # `len != 0` and `len <= what is left`, in any spelling and orientation
+                    if q.zero_test(c, lambda v: v == end) == 'pos':
+                        nz = True
+                    nrm = q.cmp_norm(c)
+                    if nrm and nrm[0] == 'ge' and nrm[2] == end and nrm[1][0] == 'call' and nrm[1][1] in calls and \
+                            calls[nrm[1][1]]['res'].endswith('::len'):
+                        big = True
                 good = good and nz and big and e['args'][2] == ('param', 0, 3)
                 # advance(pkt_len) after the handler on the normal path
                 okmap = q.try_ok_of(p, len(evs))
@@ -174,8 +176,9 @@ def r2_receive_loop(ctx, f, rep):
             rep.check(good, 'C16-R2', b.nname, 'item = &data[..get_u16()], 0 < len <= remaining, shown to the handler with the '
                       'sender, then skipped exactly once', site=e['span'], construct='receive-iteration')
         if p.end == 'return' and p.ret[0] == 'agg' and p.ret[3] == 'Ok' and not q.path_is_error_propagation(p):
-            hr = [c for c in p.conds() if c['expr'][0] == 'call' and calls[c['expr'][1]]['decl'].endswith('has_remaining')]
-            rep.check(bool(hr) and q.cond_truth(hr[-1]) is False or not p.calls() or
+            hr = [c for c in p.conds() if q.norm_bool(c)[0][0] == 'call' and q.norm_bool(c)[0][1] in calls and
+                  calls[q.norm_bool(c)[0][1]]['decl'].endswith('has_remaining')]
+            rep.check(bool(hr) and q.norm_bool(hr[-1])[1] is False or not p.calls() or
                       all(c['res'].endswith('is_empty') for c in p.calls()[:1]) and len(p.calls()) == 1, 'C16-R2', b.nname,
                       'Ok(()) only when nothing is left over', construct='no-trailing-bytes')
     rep.floor('C16-R2', n, 4, 'receive_item occurrences in the loop')
@@ -352,6 +355,16 @@ def r4_broadcast(ctx, f, rep):
                     good = cc['decl'] == 'broadcast::BroadcastHandler::should_add_broadcast_data' and cc['args'][1] in (('param', 0, 2), ('ref', ('deref', ('param', 0, 2)), False))
         rep.check(good, 'C16-R4', b.nname, 'targets = choose_active_members(num_indirect_probes, |m| handler.should_add_'
                   'broadcast_data(m))', construct='targets')
+        if pick:
+            # ... into a cleared scratch buffer: left-overs of an earlier, interrupted pop loop would be contacted too
+            # (more than num_indirect_probes recipients, members that have since gone Down or that the handler rejects)
+            pi = [k for k, x in enumerate(evs) if x is pick[0]][0]
+            dest = pick[0]['args'][2]
+            cl = [k for k, x in enumerate(evs[:pi]) if x['kind'] == 'call' and x['res'] == 'alloc::vec::Vec::clear' and x['args'][0] == dest]
+            dirty = [k for k, x in enumerate(evs[:pi]) if x['kind'] == 'call' and x['res'] != 'alloc::vec::Vec::clear' and
+                     any(a == dest or a == ('ref', q.SELF, True) for a in x['args'])]
+            rep.check(bool(cl) and not (dirty and dirty[-1] > cl[-1]), 'C16-R4', b.nname, 'the targets are chosen into a buffer '
+                      'cleared just before', site=pick[0]['span'], construct='targets-buffer-cleared')
         for i, e in sends:
             rep.check(q.is_variant(e['args'][2], 'Message', 'Broadcast'), 'C16-R4', b.nname, 'only Broadcast datagrams',
                       site=e['span'], construct='kind')
@@ -388,4 +401,7 @@ def check(ctx):
         from . import c07 as _c07
         _c07.count_always_present(ctx, f, rep, 'C16-R3')
         r4_broadcast(ctx, f, rep)
+        # what "choose_active_members(n, picker)" means: n members drawn among those that are active AND pass the picker
+        # (sampling first and filtering afterwards wastes slots on ineligible members): C07-R6
+        c07.r6_feed(ctx, f, _Rel(rep, 'C07-R6', 'C16-R4'))
     rep.cur_config = None
